@@ -140,6 +140,18 @@ class AmfFamily(Family):
                     ops.append(f"!amf.marker {m} {t}")
                 bump(stats, "marker_cases")
                 yield ops
+            # ... and wherever else a type marker is expected: after complete values, inside open containers
+            prefixes = ["05", "0000000000000000" + "00", "02000161", "0502000161" + "0100", "0300016105000009",
+                        "03000161", "0a00000002", "0a0000000205", "080000000100016b", "0300016103000162", "05" + "0a00000001",
+                        "020003616263" + "03000161" + "0a00000003" + "05", "0300016105" + "000162"]
+            for m in [4, 7, 11, 12, 13, 14, 15, 16, 17, 18, 64, 127, 128, 254, 255]:
+                ops = []
+                for pre in prefixes:
+                    for t in ["-", "00", "000000000000000000000000"]:
+                        ops.append(f"amf.dec {pre}{m:02x}{'' if t == '-' else t}")
+                        ops.append(f"!amf.markerat {pre} {m} {t}")
+                bump(stats, "marker_after_prefix_cases")
+                yield ops
             bad_utf8 = ["80", "c0af", "c1bf", "e08080", "e09f80", "eda080", "edbfbf", "f08080af", "f0808080", "f4908080", "f5808080",
                         "c2", "e282", "f09f98", "ff", "fe", "c280", "e0a080", "ed9fbf", "ee8080", "f0908080", "f48fbfbf", "dfbf", "efbfbf",
                         "61c2", "c2c2", "e2e2", "f8888080"]
@@ -305,6 +317,13 @@ class ChunkFamily(Family):
                     yield ["ser.new", f"ser.setcs {cs_} 0", f"ser.msg 9 1 0 0 0 ab*{ln}"] + \
                           (["des.new", f"des.setcs {cs_}", "des.feedpk 1 all", "!chunk.rt 1 100000"] if ln <= 16777215 else []) + \
                           ["ser.msg 8 1 5 0 0 0102"]
+            # a refused size is refused AND not honoured: both codecs keep working with the size in force before it
+            for prev in (0, 1, 50, 128, 4096):
+                for bad in (0, 1 << 31, (1 << 31) + 1, M32 - 1):
+                    bump(stats, "refused_size_then_use")
+                    yield [f"!cs.refused {prev} {bad} {rng.choice([1, 129, 300, 9000])}",
+                           "ser.new"] + ([f"ser.setcs {prev} 0"] if prev else []) + [f"ser.setcs {bad} 0", f"ser.msg 9 1 0 0 0 {GC.payload_tok(2, 300)}",
+                           "des.new"] + ([f"des.setcs {prev}"] if prev else []) + [f"des.setcs {bad}", f"des.feedpk {'11' if prev else '1'} all"]
         # seed-independent small-scope part
         alpha = GC.small_alphabet()
         stats["small_alphabet"] = len(alpha)
@@ -364,7 +383,11 @@ class ForeignFamily(Family):
         if pid == "C16":
             n = n // 2
             for i in range(n):
-                if i % 3 == 2:
+                if i % 50 == 48:
+                    # more chunk streams alive at once than any fixed-size history would hold
+                    bs, expect = GF.encode_many_streams(rng, stats)
+                    ov = False
+                elif i % 3 == 2:
                     # streams that alternate without overlapping, each on a steady cadence (type-3 message starts)
                     bs, expect = GF.encode_alternating_cadence(rng, stats)
                     ov = False
@@ -398,7 +421,9 @@ class ForeignFamily(Family):
                 yield ["des.new", f"des.feed {part_sizes(rng, len(bs))} {hexb(bs)}", f"!des.alloc {hexb(bs)}",
                        f"!des.split all {part_sizes(rng, len(bs))} {hexb(bs)}"]
                 continue
-            if i % 8 == 7:
+            if i % 50 == 48:
+                bs, expect = GF.encode_many_streams(rng, stats)
+            elif i % 8 == 7:
                 bs, expect = GF.encode_alternating_cadence(rng, stats)
                 bump(stats, "alternating_cadence")
             else:
@@ -714,12 +739,12 @@ class InteropFamily(Family):
             "every request; client proceeds on each accepted event; stop after the last item / after playback was accepted and "
             "everything arrived); script: connect(app with/without trailing '/'), publish or play(key), items = metadata/audio/video with "
             "sizes {0, 1, cs-1, cs, cs+1, 64 KiB+1, random} and timestamps incl. ≥ 2^24, 2^32-1 and falling; configurations: chunk sizes "
-            "{1,2,127,128,4096,65535,2^31-1}² × windows {1,100,2500000,2^32-1}²; oracle: every item raised exactly once, in order, "
+            "{1,2,127,128,4096,65535,2^31-1,2^24+1000}² × windows {1,100,2500000,2^32-1}²; oracle: every item raised exactly once, in order, "
             "byte-identical with its timestamp, under the app name (minus one trailing '/') and stream key, connect completed on both "
             "sides, exactly one matching finished event at the server, no error, no stall; non-trivial = ≥ 1 item; distinct = distinct op text")
 
     def gen(self, rng, tier, pid, stats):
-        sizes_cs = [1, 2, 127, 128, 4096, 65535, (1 << 31) - 1]
+        sizes_cs = [1, 2, 127, 128, 4096, 65535, (1 << 31) - 1, (1 << 24) + 1000]
         wins = [0, 1, 100, 2500000, M32 - 1]
         n = 3000 if tier == "quick" else 40000
         # a deterministic sweep over all chunk-size pairs first
